@@ -138,6 +138,12 @@ class TxParser:
         self.presented = False    # current word already reported as presented
         self.events = []
 
+    def reset(self):
+        """The DUT's clock domain was reset: whatever was in flight is cut off."""
+        self.state = "idle"
+        self.words = []
+        self.presented = False
+
     def feed(self, cycle, valid, ready, data, ctrl):
         ev = []
         if not valid:
